@@ -1,4 +1,4 @@
-// C01 — frame reception is memory-safe and UB-free. Shared by the rapidcheck runner (quick tier)
+// C01 — frame reception is memory-safe and UB-free. (ops 9 raw frame, 10 tick, 11 advance, 12 probe burst + Queries, 13 Discover storm, 14 large-property transfer) Shared by the rapidcheck runner (quick tier)
 // and the libFuzzer target (thorough tier): both produce a Case of raw frames / ticks / clock
 // advances, which exec_c01() feeds to all three receive entry points in daemon mode.
 #pragma once
@@ -107,14 +107,15 @@ static inline C01Stats exec_c01(const Case &c) {
             if (op.kind == 11 /*K_ADVANCE*/) { vp_set_now_ms(vp_now_ms() + (uint64_t)std::max<int64_t>(0, std::min<int64_t>(op.arg(0), 120000))); continue; }
             if (op.kind == 12 /*burst: a = count, first id, then-query*/) {
                 // many pairwise-distinct Probe/Train frames addressed to this station (both flows), optionally followed by a Query from station 0
-                int64_t cnt = std::max<int64_t>(0, std::min<int64_t>(op.arg(0), 600));
+                int64_t cnt = std::max<int64_t>(0, std::min<int64_t>(op.arg(0), 1200));
+                const int64_t drains = std::max<int64_t>(1, std::min<int64_t>(op.arg(3, 1), 48));   // how many Queries follow (a full drain of a full list takes 15 at MTU 1500, 38 at 576)
                 Mac m0 = mac_from_u64(0x0200AA000001ULL);
-                for (int64_t k = 0; k <= cnt; k++) {
-                    bool query = k == cnt;
+                for (int64_t k = 0; k < cnt + drains; k++) {
+                    bool query = k >= cnt;
                     if (query && !op.arg(2)) break;
                     for (int flow = 0; flow < 2; flow++) {
                         Mac me = flow == 0 ? own : mac_from_u64(mac_to_u64(own) ^ 0x10);
-                        Bytes f = query ? mk_simple(me, m0, 0, OP_QUERY, me, m0, 7)
+                        Bytes f = query ? mk_simple(me, m0, 0, OP_QUERY, me, m0, (uint16_t)(7 + (k - cnt)))
                                         : mk_simple(me, mac_from_u64(0x0600CC000000ULL + (uint64_t)(op.arg(1) + k)), 0, (k & 1) ? OP_PROBE : OP_TRAIN, me, mac_from_u64(0x0600DD000000ULL + (uint64_t)((op.arg(1) + k) % 7)), 0);
                         uint8_t *tf;
                         if (flow == 0) br_darwin_rx(&d, w.stage(i0, f, DAEMON, &tf), f.size());
@@ -139,6 +140,31 @@ static inline C01Stats exec_c01(const Case &c) {
                         else br_linux_rx(lm, ls, w.stage(i1, f, DAEMON, &tf), w.ctx(i1));
                     }
                     s.frames++;
+                }
+                s.deep++;
+                if (vp_ledger_violations()) { s.fail = vp_ledger_last_violation(); break; }
+                continue;
+            }
+            if (op.kind == 14 /*transfer: a = property type, first sequence number, what follows (0 nothing, 1 topology Reset, 2 the first chunk again, 3 quick Reset)*/) {
+                // a mapper fetches a large property chunk by chunk (offsets 0, P, 2P ... with P = MTU - 34, one request past the end), on both flows
+                size_t P = mtu - 34;
+                size_t size = op.arg(0) == 0x0E ? blob(2).size() : op.arg(0) == 0x11 ? blob(3).size() : blob(4).size();
+                Mac m0 = mac_from_u64(0x0200AA000001ULL);
+                uint16_t seq = (uint16_t)std::max<int64_t>(1, op.arg(1) & 0xFFFF);
+                std::vector<Bytes> fs;
+                for (int flow = 0; flow < 2; flow++) {
+                    Mac me = flow == 0 ? own : mac_from_u64(mac_to_u64(own) ^ 0x10);
+                    std::vector<Bytes> reqs;
+                    for (size_t off = 0; off <= size + P && off <= 0xFFFF; off += P) reqs.push_back(mk_qlt(me, m0, me, m0, (uint16_t)(seq + reqs.size()), (uint8_t)op.arg(0), (uint16_t)off, 0));
+                    if (op.arg(2) == 1) reqs.push_back(mk_simple(BCAST, m0, 0, OP_RESET, BCAST, m0, 0));
+                    if (op.arg(2) == 3) reqs.push_back(mk_simple(BCAST, m0, 1, OP_RESET, BCAST, m0, 0));
+                    if (op.arg(2) == 2) reqs.push_back(mk_qlt(me, m0, me, m0, (uint16_t)(seq + 100), (uint8_t)op.arg(0), 0, 0));
+                    for (auto &f : reqs) {
+                        uint8_t *tf;
+                        if (flow == 0) br_darwin_rx(&d, w.stage(i0, f, DAEMON, &tf), f.size());
+                        else br_linux_rx(lm, ls, w.stage(i1, f, DAEMON, &tf), w.ctx(i1));
+                        s.frames++;
+                    }
                 }
                 s.deep++;
                 if (vp_ledger_violations()) { s.fail = vp_ledger_last_violation(); break; }
